@@ -143,8 +143,32 @@ class Wiring:
                 if PM.opcode_of(e) is not None:
                     raise AnalysisError(f'{ci.name}.{meth}: a second opcode is written in one call')
                 operands.append(_operand(e))
+            # len(x) is a length prefix only when the elements of x follow; on its own it is a number like any other
+            for i, o in enumerate(operands):
+                if o[0] == 'len' and not (i + 1 < len(operands) and operands[i + 1][0] in ('each', 'names')
+                                          and strip_view(operands[i + 1][1]) == strip_view(o[1])):
+                    operands[i] = ('scalar', ('call', ('name', 'len'), (o[1],), ()))
+            # a number that this path has just stored as the table entry of a key it found missing (`if k not in t: t[k] = v; write(v)`)
+            # is that entry (`write(t[k])`).  Only under the membership test: after `if not t.get(k)` the entry may exist (value 0).
+            for i, o in enumerate(operands):
+                if o[0] == 'scalar' and o[1][0] != 'const':
+                    for ev_ in rec.get('events', []):
+                        if ev_.kind == 'setitem' and ev_.value[2] == o[1] \
+                                and (('cmp', 'in', ev_.value[1], ev_.value[0]), False) in [(c_, b_) for c_, b_ in rec['conds']]:
+                            operands[i] = ('scalar', ('sub', ev_.value[0], ev_.value[1]))
             cases.append({'conds': rec['conds'], 'opcode': op, 'operands': operands, 'rec': rec, 'nwrites': len(allb)})
         return mf, cases
+
+
+def strip_view(v):
+    """d.keys() / d.values() / list(d) / tuple(d) name the same collection as d for the purpose of pairing a length with its elements"""
+    while True:
+        if v[0] == 'call' and v[1][0] == 'attr' and v[1][2] in ('keys', 'values', 'items') and not v[2]:
+            v = v[1][1]
+        elif v[0] == 'call' and v[1] in (('name', 'list'), ('name', 'tuple')) and len(v[2]) == 1:
+            v = v[2][0]
+        else:
+            return v
 
 
 def _subst(v, old, new):
